@@ -694,8 +694,164 @@ fn c14_backend<F: Function + MathFunction + Clone>(
     }
 }
 
+/// The solver as a consumer of the variable-to-slot map (one of the places the
+/// property names): every equation is `u_k - sum c_j * f_j`, one free `u_k`
+/// per equation and fixed `f_j` met in a drawn order per equation, so the
+/// per-tape slot of a fixed variable differs between equations.  All values
+/// are small dyadic numbers, the system is decoupled with unit diagonal, and
+/// the only thing the answer depends on is which value each variable
+/// identity was bound to.
+fn run_c14_solver(st: &Shared, mut rep: RunReport) -> RunReport {
+    rep.count("op.solver_binding_run", 1);
+    rep.count("fault.fresh_hash_keys_and_var_ids", 1);
+    let (nfix, nfree, backend) = {
+        let ch = &mut st.borrow_mut().ch;
+        (
+            1 + ch.choose("sb_nfix", 6) as usize,
+            1 + ch.choose("sb_nfree", 4) as usize,
+            ch.choose("sb_backend", 3),
+        )
+    };
+    // identities: fresh variables, sometimes the axes too
+    let mut fixed: Vec<Var> = vec![];
+    for k in 0..nfix {
+        let axis = st.borrow_mut().ch.odds("sb_axis", 1, 5);
+        let v = match (axis, k) {
+            (true, 0) => Var::X,
+            (true, 1) => Var::Y,
+            (true, 2) => Var::Z,
+            _ => Var::new(),
+        };
+        fixed.push(v);
+    }
+    let free: Vec<Var> = (0..nfree).map(|_| Var::new()).collect();
+    // distinct dyadic values
+    let fvals: Vec<f32> = (0..nfix)
+        .map(|k| {
+            let q = st.borrow_mut().ch.choose("sb_val", 8) as f32;
+            (k as f32 + 1.0) * 2.0 + q * 0.125
+        })
+        .collect();
+    let mut ctx = Context::new();
+    let mut eqs: Vec<Node> = vec![];
+    let mut expect: Vec<f32> = vec![];
+    let mut slot_sig = 0u64;
+    for k in 0..nfree {
+        let ch = &mut st.borrow_mut().ch;
+        // a drawn non-empty subset of the fixed variables in a drawn order
+        let mut terms: Vec<usize> =
+            (0..nfix).filter(|_| ch.odds("sb_use", 2, 3)).collect();
+        if terms.is_empty() {
+            terms.push(ch.choose("sb_force", nfix as u32) as usize);
+        }
+        for a in (1..terms.len()).rev() {
+            let b = ch.choose("sb_shuffle", a as u32 + 1) as usize;
+            terms.swap(a, b);
+        }
+        let free_first = ch.flag("sb_free_first");
+        let mut acc: Option<Node> = None;
+        let mut want = 0.0f32;
+        let u = if free_first { Some(ctx.var(free[k])) } else { None };
+        for j in &terms {
+            let c = [1.0f32, -1.0, 0.5, 2.0][ch.choose("sb_coef", 4) as usize];
+            want += c * fvals[*j];
+            let v = ctx.var(fixed[*j]);
+            let t = ctx.mul(v, c).unwrap();
+            acc = Some(match acc {
+                None => t,
+                Some(p) => ctx.add(p, t).unwrap(),
+            });
+            slot_sig = mix(slot_sig, mix(k as u64, *j as u64));
+        }
+        let mut acc = acc.unwrap();
+        if want == 0.0 {
+            // a zero solution component makes the solver crawl (DESIGN 11.3)
+            acc = ctx.add(acc, 0.5).unwrap();
+            want = 0.5;
+        }
+        let u = u.unwrap_or_else(|| ctx.var(free[k]));
+        eqs.push(ctx.sub(u, acc).unwrap());
+        expect.push(want);
+    }
+    let start: Vec<f32> = (0..nfree)
+        .map(|_| st.borrow_mut().ch.float_sym("sb_start", 4.0, 16))
+        .collect();
+    st.borrow_mut().log("sb_sig", slot_sig, nfix as u64);
+    if nfix >= 2 && nfree >= 2 {
+        rep.sigs.push(mix(slot_sig, 0x50f7));
+    }
+    rep.sample = format!(
+        "solver-binding backend={backend} fixed={nfix} free={nfree} values={fvals:?} expect={expect:?}"
+    );
+    fn go<F: Function + MathFunction>(
+        ctx: &Context,
+        eqs: &[Node],
+        fixed: &[Var],
+        fvals: &[f32],
+        free: &[Var],
+        start: &[f32],
+        extra: bool,
+    ) -> Result<Result<HashMap<Var, f32>, String>, String> {
+        rt::catch(|| {
+            let eqs: Vec<F> =
+                eqs.iter().map(|n| F::new(ctx, &[*n]).unwrap()).collect();
+            let mut params: HashMap<Var, Parameter> = HashMap::new();
+            for (v, x) in fixed.iter().zip(fvals) {
+                params.insert(*v, Parameter::Fixed(*x));
+            }
+            for (v, x) in free.iter().zip(start) {
+                params.insert(*v, Parameter::Free(*x));
+            }
+            if extra {
+                // supplied but mentioned nowhere: ignored
+                params.insert(Var::new(), Parameter::Fixed(1234.5));
+            }
+            solve(&eqs, &params).map_err(|e| e.to_string())
+        })
+    }
+    let extra = st.borrow_mut().ch.odds("sb_extra", 1, 4);
+    let r = match backend {
+        0 => go::<VmFunction>(&ctx, &eqs, &fixed, &fvals, &free, &start, extra),
+        1 => go::<JitFunction>(&ctx, &eqs, &fixed, &fvals, &free, &start, extra),
+        _ => go::<GenericVmFunction<3>>(
+            &ctx, &eqs, &fixed, &fvals, &free, &start, extra,
+        ),
+    };
+    rep.evaluations += 1;
+    rep.steps += 1;
+    match r {
+        Err(p) => rep.violate("C14", "solver_binding_panic", p),
+        Ok(Err(e)) => rep.violate("C14", "solver_binding_error", e),
+        Ok(Ok(sol)) => {
+            let mut h = 0u64;
+            for (k, v) in free.iter().enumerate() {
+                rep.checked_oracle += 1;
+                let got = sol.get(v).copied().unwrap_or(f32::NAN);
+                h = mix(h, got.to_bits() as u64);
+                let tol = 1e-3 * (1.0 + expect[k].abs());
+                if !((got - expect[k]).abs() <= tol) {
+                    rep.violate(
+                        "C14",
+                        "solver_binds_variable_by_slot_not_identity",
+                        format!(
+                            "free variable {k}: solved {got}, but with every fixed variable at the value supplied under its identity the equation gives {} (fixed values {fvals:?})",
+                            expect[k]
+                        ),
+                    );
+                    break;
+                }
+            }
+            st.borrow_mut().log("sb_solution", h, 0);
+        }
+    }
+    rep.finish(st)
+}
+
 pub fn run_c14(st: &Shared, _tier: Tier) -> RunReport {
     let mut rep = RunReport::default();
+    if st.borrow_mut().ch.odds("c14_solver_consumer", 1, 8) {
+        return run_c14_solver(st, rep);
+    }
     // 1-3 functions per run; later ones usually mention the same variables
     // and axes as the first, met in a different traversal order, and all are
     // evaluated with the same evaluator objects
